@@ -94,3 +94,41 @@ Definition output_consistent_tol_b (N D d : nat) (tol : Qc)
     | None => None
     end
   else None.
+
+(* ---------------- tolerance RELATIVE TO THE OUTPUT (wave 3) ---------------- *)
+(* The property says "reproduces ... to rounding error of the output".  Evaluating P^T (x - m) in binary
+   floating point (one rounding for x_t - m_t, D products, D - 1 additions, any order) has the componentwise
+   forward error  |fl - exact|_c <= gamma_(D+1) * A_c,   A_c = sum_t |P t c| * |x t - m t|.
+   A_c does not grow with a common offset of x and m (it is a function of x - m), whereas the absolute
+   tolerances above are built from max|x|.  `is_projection_rel_b` is the decision procedure for
+        |y_c - (P^T (x - m))_c| <= eps * A_c      for every c < d;
+   at eps = 0 it decides the exact specification. *)
+Definition mpi_abs_project (D : nat) (P : mat Qc) (m x : vec Qc) : vec Qc :=
+  fun c => sumn D (fun t => (pq_abs (P t c) * pq_abs (x t - m t))%F).
+
+Definition vwithin_rel_b (n : nat) (eps : Qc) (y s a : vec Qc) : bool :=
+  forallb (fun c => pq_leb (pq_abs (y c - s c)%Qc) (eps * a c)%Qc) (seq 0 n).
+Definition vwithin_rel (n : nat) (eps : Qc) (y s a : vec Qc) : Prop :=
+  forall c, c < n -> (pq_abs (y c - s c) <= eps * a c)%Qc.
+
+Lemma vwithin_rel_b_ok n eps y s a : vwithin_rel_b n eps y s a = true <-> vwithin_rel n eps y s a.
+Proof.
+  unfold vwithin_rel_b, vwithin_rel. rewrite forallb_forall. split.
+  - intros H c Hc. apply pq_leb_ok. apply H. apply in_seq. lia.
+  - intros H c Hc. apply in_seq in Hc. apply pq_leb_ok. apply H. lia.
+Qed.
+
+Definition is_projection_rel_b (D d : nat) (eps : Qc)
+           (P : list (list Qc)) (m x y : list Qc) : option bool :=
+  if wf_matb D d P && Nat.eqb (length m) D && Nat.eqb (length x) D && Nat.eqb (length y) d then
+    Some (vwithin_rel_b d eps (vof y) (mpi_project D (mof P) (vof m) (vof x))
+                        (mpi_abs_project D (mof P) (vof m) (vof x)))
+  else None.
+
+(* every row of Y against its own sample *)
+Definition rows_rel_b (N D d : nat) (eps : Qc) (Xs Y P : list (list Qc)) (m : list Qc) : option bool :=
+  if wf_matb N D Xs && wf_matb N d Y && wf_matb D d P && Nat.eqb (length m) D then
+    Some (forallb (fun i => vwithin_rel_b d eps (mof Y i)
+                              (mpi_project D (mof P) (vof m) (mof Xs i))
+                              (mpi_abs_project D (mof P) (vof m) (mof Xs i))) (seq 0 N))
+  else None.
